@@ -472,6 +472,66 @@ def r20_8_no_aliasing_assignment(repo: Repo, rep: Report):
     rep.ok("R20.8", repo.mod("sevm"), repo.mod("sevm").tree, f"chained assignments in the package: {n}")
 
 
+MUTATORS = {"append", "extend", "add", "update", "pop", "popitem", "remove", "clear", "insert", "setdefault", "sort", "reverse", "discard", "appendleft"}
+
+
+def r20_9_module_containers_and_config(repo: Repo, rep: Report):
+    rep.rule("R20.9", "no function writes into a module-level container (a cache shared by all contracts/tests), and configuration values are never mutated")
+    REVIEWED = {
+        # module.name: reason
+    }
+    n_cont = 0
+    for modname, m in repo.modules.items():
+        containers = {}
+        for st in m.tree.body:
+            tgt = st.targets[0] if isinstance(st, ast.Assign) and len(st.targets) == 1 else (st.target if isinstance(st, ast.AnnAssign) and st.value is not None else None)
+            if isinstance(tgt, ast.Name):
+                v = st.value
+                if isinstance(v, (ast.Dict, ast.List, ast.Set)) or (isinstance(v, ast.Call) and call_name(v) in ("dict", "list", "set", "defaultdict", "OrderedDict", "Counter", "deque", "WeakValueDictionary", "WeakKeyDictionary")):
+                    containers[tgt.id] = st
+        n_cont += len(containers)
+        for q, fn in m.defs.items():
+            if not isinstance(fn, (ast.FunctionDef, ast.AsyncFunctionDef)):
+                continue
+            shadow = {a.arg for a in ast.walk(fn.args) if isinstance(a, ast.arg)} | {n.id for n in ast.walk(fn) if isinstance(n, ast.Name) and isinstance(n.ctx, ast.Store)}
+            for n in body_walk(fn):
+                name = None
+                if isinstance(n, ast.Subscript) and isinstance(n.ctx, (ast.Store, ast.Del)) and isinstance(n.value, ast.Name):
+                    name = n.value.id
+                elif isinstance(n, ast.Call) and isinstance(n.func, ast.Attribute) and n.func.attr in MUTATORS and isinstance(n.func.value, ast.Name):
+                    name = n.func.value.id
+                if name in containers and name not in shadow and f"{modname}.{name}" not in REVIEWED:
+                    rep.bad("R20.9", m, n, f"{modname}.{q} writes module-level `{name}`: {src(m.parents.get(n, n))[:90]}", "a module-level container written at run time is shared by every contract, test and path of the process: results depend on what ran before (e.g. analysis results keyed by a partial identity)")
+    rep.ok("R20.9", repo.mod("sevm"), repo.mod("sevm").tree, f"module-level containers in the package: {n_cont}; none is written from a function")
+    # configuration values are shared by all tests (layers point at their parents): never mutated
+    n_sites = 0
+    for modname, m in repo.modules.items():
+        if modname == "config":
+            continue
+        for node in ast.walk(m.tree):
+            tgt = None
+            if isinstance(node, ast.Call) and isinstance(node.func, ast.Attribute) and node.func.attr in MUTATORS:
+                tgt = node.func.value
+            elif isinstance(node, ast.Subscript) and isinstance(node.ctx, (ast.Store, ast.Del)):
+                tgt = node.value
+            elif isinstance(node, ast.Attribute) and isinstance(node.ctx, (ast.Store, ast.Del)):
+                tgt = node.value
+                if not (isinstance(tgt, ast.Name) and tgt.id in ("args", "config")) and not (isinstance(tgt, ast.Attribute) and tgt.attr == "args"):
+                    tgt = None
+                else:
+                    n_sites += 1
+                    rep.bad("R20.9", m, node, f"{m.qual(node)}: {src(m.parents.get(node, node))[:90]}", "an option is overwritten on a shared configuration object")
+                    continue
+            if tgt is None:
+                continue
+            chain = src(tgt)
+            parts = chain.split(".")
+            if len(parts) >= 2 and ("args" in parts[:-1]) and parts[0] in ("args", "self", "ctx", "sevm", "ex", "path_ctx", "test_config", "setup_config") and not chain.endswith(".args"):
+                n_sites += 1
+                rep.bad("R20.9", m, node, f"{m.qual(node)}: {src(m.parents.get(node, node))[:90]}", "a configuration value (e.g. the --array-lengths dictionary of the default layer) is mutated in place: what one test resolves leaks into every later test")
+    rep.ok("R20.9", repo.mod("calldata"), repo.mod("calldata").tree, f"in-place writes to configuration values: {n_sites}")
+
+
 def r20_7_shared(repo: Repo, rep: Report):
     """the configuration of one test must not leak into the next: per-function layers are built from the contract's
     configuration, never from the previous function's (shared with C18 R18.4)"""
@@ -480,4 +540,4 @@ def r20_7_shared(repo: Repo, rep: Report):
     r18_4_scoping(repo, rep)
 
 
-RULES = [r20_8_no_aliasing_assignment, r20_7_shared, r20_6_shared, r20_0_no_dynamic_features, r20_1_fork_copies, r20_2_inactive_paths, r20_3_fresh_per_test, r20_4_process_wide_state, r20_5_uid_nominal]
+RULES = [r20_9_module_containers_and_config, r20_8_no_aliasing_assignment, r20_7_shared, r20_6_shared, r20_0_no_dynamic_features, r20_1_fork_copies, r20_2_inactive_paths, r20_3_fresh_per_test, r20_4_process_wide_state, r20_5_uid_nominal]
